@@ -302,6 +302,63 @@ fn examine(label: &str, fs: &FileSet, plan: &Plan, scratch: &std::path::Path, ev
             note("first-call-same-object", &o, &mut diffs);
         }
     }
+    // directory arrangements: the same contents put into a directory in different creation orders
+    // (what the directory lists first differs by file system: creation order or a hash of the names),
+    // read through the directory entry point the CLI uses; then the same with an unreadable
+    // (non-UTF-8) stray sibling under different names, created first or last
+    if fs.files.len() >= 2 && fs.total_len() < 300_000 && fs.files.iter().all(|f| !f.0.contains('/') && !f.0.contains("..")) {
+        let n = fs.files.len();
+        let mut plain: Vec<GenOutcome> = vec![];
+        let mut stray: Vec<GenOutcome> = vec![];
+        let arrangements: [(usize, bool, Option<(&str, bool)>); 8] =
+            [(0, false, None), (1, true, None), (n / 2, false, None), (0, true, Some(("zz-stray.xsd", false))), (1, false, Some(("aa-stray.xsd", true))), (0, false, Some(("0.xsd", true))), (n - 1, true, Some(("M-stray.xsd", false))), (0, false, Some(("zzzz.xsd", true)))];
+        for (k, (rot, rev, st)) in arrangements.into_iter().enumerate() {
+            let dir = scratch.join(format!("dir{k}"));
+            let _ = std::fs::remove_dir_all(&dir);
+            std::fs::create_dir_all(&dir).unwrap();
+            let mut order: Vec<usize> = (0..n).collect();
+            order.rotate_left(rot % n);
+            if rev {
+                order.reverse();
+            }
+            if let Some((name, true)) = st {
+                std::fs::write(dir.join(name), [0xffu8, 0xfe, 0x00, 0x41, 0xc3, 0x28]).unwrap();
+            }
+            for i in order {
+                std::fs::write(dir.join(&fs.files[i].0), &fs.files[i].1).unwrap();
+            }
+            if let Some((name, false)) = st {
+                std::fs::write(dir.join(name), [0xffu8, 0xfe, 0x00, 0x41, 0xc3, 0x28]).unwrap();
+            }
+            ev.evaluations += 1;
+            let o = zeep::generate_from_dir(&dir.join(&fs.start));
+            if st.is_none() { plain.push(o) } else { stray.push(o) }
+            let _ = std::fs::remove_dir_all(&dir);
+        }
+        // (what the directory entry point registers need not be what the in-memory file set holds:
+        // only *.xsd siblings count; the arrangements are compared with each other)
+        for o in &plain[1..] {
+            if o != &plain[0] {
+                diffs.push(Diff { axis: "directory-arrangement", class: diff_class(&plain[0], o), detail: format!("{:?}", o).chars().take(200).collect() });
+                break;
+            }
+        }
+        // with the stray sibling the outcome may be an error, but the same one every time
+        let class_of = |o: &GenOutcome| match o {
+            GenOutcome::Ok(t) => format!("ok:{}", hash64(t)),
+            GenOutcome::ReadErr(e) => format!("read-error:{}", e.split(':').next().unwrap_or("")),
+            GenOutcome::WriteErr(_) => "write-error".to_string(),
+            GenOutcome::Panic(_) => "panic".to_string(),
+        };
+        if let Some(first) = stray.first() {
+            for o in &stray[1..] {
+                if class_of(o) != class_of(first) {
+                    diffs.push(Diff { axis: "directory-arrangement-with-unreadable-sibling", class: "outcome".into(), detail: format!("{} vs {}", class_of(first), class_of(o)) });
+                    break;
+                }
+            }
+        }
+    }
     // fresh processes
     if plan.procs > 0 {
         let p = scratch.join("fs.json");
@@ -329,7 +386,7 @@ pub fn run(tier: Tier) -> i32 {
         "C12",
         tier,
         "exploration",
-        "inputs: every repository schema/WSDL + proptest-generated order-sensitive WSDLs (2-9 operations, 1-4 parts per message, body with/without parts=, headers, types inline or in an imported file) + generated import sets whose registered file names are distinct but alike (shared last path segment, case, ./ prefix). Per accepted input the output bytes are compared with the first output across: R repeated in-process generations (each HashMap gets fresh RandomState keys), T threads, K fresh processes, all registration orders of Files::add (<= 4 files; sampled above), three calls on the SAME FilesToRead object, and two writes of the same document. Non-trivial: input with >= 2 operations or >= 2 message parts or >= 2 files; distinct by input text.",
+        "inputs: every repository schema/WSDL + proptest-generated order-sensitive WSDLs (2-9 operations, 1-4 parts per message, body with/without parts=, headers, types inline or in an imported file) + generated import sets whose registered file names are distinct but alike (shared last path segment, case, ./ prefix) + schema sets from the model generator (several namespaces, members of foreign namespaces). Per accepted input the output bytes are compared with the first output across: R repeated in-process generations (each HashMap gets fresh RandomState keys), T threads, K fresh processes, all registration orders of Files::add (<= 4 files; sampled above), three calls on the SAME FilesToRead object, two writes of the same document, and (multi-file sets) eight directory arrangements read through utils::read_input_file_and_xsd_files_at_path: different file creation orders, and an unreadable non-UTF-8 stray sibling under five names created first or last (there the outcomes only have to agree with each other). Non-trivial: input with >= 2 operations or >= 2 message parts or >= 2 files; distinct by input text.",
     );
     ev.assume("hash seeds cannot be chosen, only sampled: each in-process HashMap and each fresh process draws new RandomState keys");
     let plan = Plan { repeats: tier.pick(6, 24), threads: tier.pick(4, 16), procs: tier.pick(8, 64) };
@@ -354,6 +411,16 @@ pub fn run(tier: Tier) -> i32 {
         let spec = strat.new_tree(&mut runner).unwrap().current();
         let fs = render(&spec);
         inputs.push((format!("gen{i}"), fs, serde_json::to_value(&spec).unwrap()));
+    }
+
+    // schema sets from the model generator: several namespaces, members of foreign namespaces,
+    // extensions across files (order-sensitive places other than operations and parts)
+    {
+        let profile = crate::sgen::Profile { std_names: false, ..crate::sgen::Profile::full() };
+        let (cases, _) = crate::pipeline::generate(tier.pick(80, 800), "C12-models", &profile);
+        for (i, c) in cases.into_iter().enumerate() {
+            inputs.push((format!("model{i}"), c.files, json!({"model_case": i})));
+        }
     }
 
     let names_strat = proptest::collection::vec(0usize..SIMILAR_NAMES.len(), 2..5);
